@@ -165,7 +165,29 @@ fn part_values(ctx: &Arc<Ctx>) {
 	let depth = 3usize;
 	for d in 0..depth {
 		let mut next: Vec<JsonValue> = vec![JsonValue::Array(JsonArray(vec![])), JsonValue::Object(JsonObject::default())];
-		let pool: Vec<&JsonValue> = if d <= 1 { level.iter().collect() } else { level.iter().step_by(ctx.tier.pick(401, 53)).collect() };
+		let pool: Vec<&JsonValue> = if d <= 1 { level.iter().collect() } else { level.iter().step_by(ctx.tier.pick(401, 7)).collect() };
+		if d + 1 == depth {
+			// last level: nothing is built on top of it, so the values are produced and judged on the fly
+			let pr = &pool;
+			par_for(pool.len(), |ai| {
+				let a = pr[ai];
+				roundtrip(ctxr, &JsonValue::Array(JsonArray(vec![a.clone()])), "nested value");
+				let mut o = JsonObject::default();
+				o.0.insert(keys[0].into(), a.clone());
+				roundtrip(ctxr, &JsonValue::Object(o), "nested value");
+				for b in pr.iter() {
+					roundtrip(ctxr, &JsonValue::Array(JsonArray(vec![a.clone(), (*b).clone()])), "nested value");
+					let mut o = JsonObject::default();
+					o.0.insert(keys[1].into(), a.clone());
+					o.0.insert(keys[2].into(), (*b).clone());
+					roundtrip(ctxr, &JsonValue::Object(o), "nested value");
+				}
+			});
+			let n = 2 * pool.len() as u64 + 2 * (pool.len() as u64).pow(2);
+			ctx.outcome_n(&format!("nested values of depth {}", d + 1), n);
+			ctx.nontrivial_distinct(n);
+			break;
+		}
 		for a in &pool {
 			next.push(JsonValue::Array(JsonArray(vec![(*a).clone()])));
 			let mut o = JsonObject::default();
@@ -351,7 +373,7 @@ fn part_containers(ctx: &Arc<Ctx>) {
 
 pub fn run(ctx: Arc<Ctx>) {
 	ctx.rule(
-		"values: all 1,112,064 one-character strings; all strings of length <= 3 over 20 escape-class characters (also as object keys); 36 numbers incl. -0, 1e21, 5e-324, max double, 2^53+-1; all nested values of depth <= 2 and width <= 2 over 7 leaves and three keys, depth 3 over every 401st (quick) / 53rd (thorough) depth-2 value; each through stringify -> own parser (equal value) and stringify -> serde_json (same value). \
+		"values: all 1,112,064 one-character strings; all strings of length <= 3 over 20 escape-class characters (also as object keys); 36 numbers incl. -0, 1e21, 5e-324, max double, 2^53+-1; all nested values of depth <= 2 and width <= 2 over 7 leaves and three keys, depth 3 over every 401st (quick) / 7th (thorough) depth-2 value; each through stringify -> own parser (equal value) and stringify -> serde_json (same value). \
 		 TileJSON: 6 documents x {versatiles, pmtiles, tar, directory} x 3 compressions written by the real writers; stored metadata (independently decoded) and the re-opened reader's TileJSON must equal the given document, zoom range and bounds only narrowed, also when the reader's tile compression label is overridden before / after the first access; served tiles.json checked through the real server. non-trivial = distinct values / documents",
 	);
 	ctx.assume("serde_json is the 'standard JSON parser'; numbers are compared as f64");
